@@ -1124,6 +1124,53 @@ def r14_9_engine_plumbing(ctx: Ctx, rule: str = "R14.9") -> None:
             else:
                 run.fail(rule, inst, f"{cname}.reapply returns `{src(v)}` instead of self.operation.apply({', '.join(ops)})", fi=f, node=p.node)
     r_marker_reapply(ctx, rule, declare=False)
+    # conform() belongs to the engine of the tree it is given: `<x>.conform(<y>)` with <x> known to differ from <y>.engine
+    # rebuilds a foreign tree by the wrong engine's rules
+    from ..flow import field_access, path_calls
+
+    n_conform = 0
+    for f in m.all_functions():
+        if not any(isinstance(n, ast.Call) and call_attr(n) == "conform" for n in ast.walk(f.node)):
+            continue
+        seen_sites: dict[int, bool] = {}
+        first_bad: dict[int, tuple] = {}
+        for p in ctx.paths(f):
+            facts = None
+            for j, c in path_calls(p):
+                if call_attr(c) != "conform" or len(c.args) != 1 or not isinstance(c.func, ast.Attribute):
+                    continue
+                recv, arg = c.func.value, c.args[0]
+                fr, fa = field_access(p, recv, j), field_access(p, arg, j)
+                ok = True
+                if fr is not None and fa is not None and fr == (fa[0], fa[1] + ("engine",)):
+                    ok = True
+                else:
+                    if facts is None:
+                        facts = path_facts(p)
+                    pair = tuple(sorted((src(recv), f"{src(arg)}.engine")))
+                    differs = any(fc.kind in ("EQ", "IS") and tuple(sorted(fc.args)) == pair and not fc.polarity for fc in facts)
+                    if differs:
+                        ok = False
+                seen_sites[id(c)] = seen_sites.get(id(c), True) and ok
+                if not ok:
+                    first_bad.setdefault(id(c), (c, p))
+        for cid, ok in seen_sites.items():
+            n_conform += 1
+            if ok:
+                run.ok(rule, f"{f.module.rel}:{f.qualname}:conform#{n_conform}")
+            else:
+                c, p = first_bad[cid]
+                run.fail(
+                    rule,
+                    f"{f.module.rel}:{f.qualname}:conform-foreign",
+                    f"`{src(c)}` conforms a relation with an engine the path has established to differ from the relation's own ({src(c.args[0])}.engine): "
+                    "a tree of another engine is rebuilt by this engine's rules (markers inserted, its own invariants enforced on it)",
+                    fi=f,
+                    node=c,
+                    details=describe(p),
+                )
+    if n_conform == 0:
+        raise AnalysisError("no conform() call site found")
 
 
 def r_marker_reapply(ctx: Ctx, rule: str, declare: bool = True) -> None:
